@@ -617,7 +617,11 @@ func BuildDoc(r *kit.Rand, cfg DocConfig) (*Doc, error) {
 			refs := make([]pdf.Reference, n)
 			objs := make([]pdf.Object, n)
 			args := make([]shared, n)
-			ownNumbers := r.Chance(1, 5) // numbers chosen by the caller, above everything allocated so far
+			// numbers chosen by the caller, above everything allocated so far (not for
+			// calls that are split over several object streams: the Writer takes the number
+			// after the highest one in use for each container, and the harness leaves room
+			// for one container only)
+			ownNumbers := r.Chance(1, 5) && n <= 10000
 			delimiterPairs := r.Chance(1, 6)
 			for j := range refs {
 				refs[j] = alloc()
